@@ -180,7 +180,10 @@ func (node *harness) run(ctx context.Context, sender tracing.ISenderHandle) {
 				node.tracer.Send(ActiveBoundaryTrace{Start: true, Node: node.activity.Element()})
 				in := node.activity.NextAction(ctx, m.flow)
 				out := make(chan IAction, 1)
+				// the relay sends a trace of its own after this loop may have left
+				relaySender := node.tracer.RegisterSender()
 				go func(bctx context.Context) {
+					defer relaySender.Done()
 					select {
 					case rsp := <-in:
 						out <- rsp
